@@ -12,3 +12,10 @@
 (define-fun hdr_idx ((s (Array Int Int)) (p Int)) Int
   (+ (* (mod (select s (+ p 8)) 128) 16777216) (* (select s (+ p 9)) 65536) (* (select s (+ p 10)) 256) (select s (+ p 11))))
 (define-fun hdr_noerr ((s (Array Int Int)) (p Int)) Bool (< (select s (+ p 8)) 128))
+; the UDP frame header (8 bytes) at the start of datagram bytes s
+(define-fun uhdr_crcok ((s (Array Int Int))) Bool
+  (= (crc4 (select s 4) (select s 5) (select s 6) (select s 7))
+     (+ (* (select s 0) 16777216) (* (select s 1) 65536) (* (select s 2) 256) (select s 3))))
+(define-fun uhdr_len ((s (Array Int Int))) Int (+ (* (select s 4) 256) (select s 5)))
+(define-fun uhdr_idx ((s (Array Int Int))) Int (+ (* (mod (select s 6) 128) 256) (select s 7)))
+(define-fun uhdr_noerr ((s (Array Int Int))) Bool (< (select s 6) 128))
